@@ -37,6 +37,7 @@ type PairCfg struct {
 	Cubic   bool
 	MTU     int
 	RcvBuf  int // receive buffer of both endpoints (0 = default 1 MiB)
+	SndBuf  int // send buffer of both endpoints (0 = default)
 	ISSA    uint32
 	ISSB    uint32
 	AW      []int  // chunk sizes written by A
@@ -87,6 +88,8 @@ func ParsePairCfg(job string) PairCfg {
 			c.MTU, _ = strconv.Atoi(v)
 		case "rcvbuf":
 			c.RcvBuf, _ = strconv.Atoi(v)
+		case "sndbuf":
+			c.SndBuf, _ = strconv.Atoi(v)
 		case "issa":
 			n, _ := strconv.ParseUint(v, 10, 32)
 			c.ISSA = uint32(n)
@@ -187,6 +190,9 @@ func newPairRun(cfg PairCfg, prefix []int) *pairRun {
 		if cfg.RcvBuf > 0 {
 			must(n.S.SetTransportProtocolOption(tcp.ProtocolNumber, tcp.ReceiveBufferSizeOption{Min: 1, Default: cfg.RcvBuf, Max: cfg.RcvBuf * 4}))
 		}
+		if cfg.SndBuf > 0 {
+			must(n.S.SetTransportProtocolOption(tcp.ProtocolNumber, tcp.SendBufferSizeOption{Min: 1, Default: cfg.SndBuf, Max: cfg.SndBuf * 4}))
+		}
 	}
 	off := 0
 	for _, n := range cfg.AW {
@@ -269,6 +275,16 @@ func (r *pairRun) appCalls() []action {
 		connected := st.State == 4
 		// writes
 		canWrite := connected && len(s.chunks) > 0 && !s.shut && sk.Writable() && s.writeErr == ""
+		// "b-first": a protocol in which the accepting side speaks first; A stays silent (no
+		// write, no shutdown) until it has read everything B had to say
+		bTotal := 0
+		for _, n := range cfg.BW {
+			bTotal += n
+		}
+		aSilent := cfg.Close == "b-first" && s == &r.a && len(r.a.got) < bTotal
+		if aSilent {
+			canWrite = false
+		}
 		if s == &r.b && cfg.Close == "half" && !r.a.shut {
 			canWrite = false // B answers only after it has seen A's half-close request being issued
 		}
@@ -328,6 +344,7 @@ func (r *pairRun) appCalls() []action {
 		switch {
 		case cfg.Close == "a-shut" && s == &r.a && doneWriting,
 			cfg.Close == "both-shut" && doneWriting,
+			cfg.Close == "b-first" && doneWriting && !aSilent,
 			cfg.Close == "half" && s == &r.a && doneWriting,
 			cfg.Close == "half" && s == &r.b && doneWriting && r.b.eof:
 			acts = append(acts, action{name: s.name + ".shutdown(write)", do: func() {
@@ -548,6 +565,12 @@ func (r *pairRun) atEnd(stepCap bool) {
 				p.sd.name, s.SndUna, s.SndNxt, s.SndNxtList, s.SndWnd, s.TimerEnabled, s.State, r.dropped, r.earlyTimer)
 			return
 		}
+	}
+	// (handshake completes) A is connected and not failed, at most two frames were lost, yet the
+	// accepting side never got a connection: the stack did not answer the retransmitted SYN-ACK
+	if r.b.sock == nil && sa.State == 4 && !errored(sa, &r.a) && r.dropped <= 2 && r.has('c') {
+		r.fail("C02", "half-open", "peer-never-established", "A considers the connection established (state %d, no error) but the listener never handed out a connection although only %d frame(s) were dropped: the handshake was left half-open", sa.State, r.dropped)
+		return
 	}
 	// (completeness) everything written before shutdown is delivered unless an endpoint failed
 	anyErr := errored(sa, &r.a) || errored(sb, &r.b) || r.b.sock == nil
